@@ -228,29 +228,45 @@ def proved_for(res):
     return out
 
 
-def run(ctx):
-    ctx.level = "proof"
-    # (T) regenerate Gen/IoConsts.v from file_format.h / writer.h, then check the theorems
-    gen_ok, gen_msg = True, ""
-    try:
+def translate(ctx):
+    """(ok, message, rows of gen_io_headers incl. "written": the Gen files that had to be rewritten)"""
+    gen_ok, gen_msg, written = True, "", []
+    if os.path.join(pv.ROOT, "translate") not in sys.path:
         sys.path.insert(0, os.path.join(pv.ROOT, "translate"))
-        gen = importlib.import_module("gen_io_consts")
-        gen.main()
+    try:
+        if importlib.import_module("gen_io_consts").main():
+            written.append("Gen/IoConsts.v")
     except Exception as e:  # the source no longer has the shape the translator reads
         gen_ok, gen_msg = False, "translate/gen_io_consts.py: %s" % e
-    # (T) every header byte expression / guard of writer.h and every test / byte assembly of reader.h
-    # -> Gen/IoHeaders.v, the bodies of check_eof / read / check_type -> Gen/IoReaderChecks.v; what is
-    # not understood becomes a row the theorems reject; an exception of the translator itself is a
-    # violation as well (the Gen files are then those of an earlier run)
+    # every header byte expression / guard of writer.h and every test / byte assembly of reader.h ->
+    # Gen/IoHeaders.v, the bodies of check_eof / read / check_type -> Gen/IoReaderChecks.v; what is not
+    # understood becomes a row the theorems reject; an exception of the translator itself is a violation
     try:
         hd = importlib.import_module("gen_io_headers").main()
     except Exception as e:
         gen_ok, gen_msg = False, (gen_msg + "; " if gen_msg else "") + "translate/gen_io_headers.py: %s: %s" % (type(e).__name__, e)
-        hd = {"writer": [], "pays": {}, "str_entry": [], "reader": [], "gets": [], "notes": [gen_msg], "writer_unknown": 1, "reader_unknown": 1,
+        hd = {"writer": [], "pays": {}, "str_entry": [], "reader": [], "gets": [], "notes": [gen_msg], "writer_unknown": 1, "reader_unknown": 1, "written": [],
               "checks": {"check_eof": "KBad", "read": "KBad", "check_type": "KBad", "users": [], "notes": [gen_msg]}}
+    hd["written"] = written + hd["written"]
+    return gen_ok, gen_msg, hd
+
+
+def run(ctx):
+    ctx.level = "proof"
+    # (T) regenerate Gen/IoConsts.v, Gen/IoHeaders.v, Gen/IoReaderChecks.v from the current tree, then check
+    # the theorems.  The Gen files are shared by every run on this machine (a seeded run against
+    # another tree, tools/try_seed.sh restoring the committed files): the theorems count only if the
+    # files are still this tree's after the build, otherwise translate and build again.
+    for attempt in range(3):
+        gen_ok, gen_msg, hd = translate(ctx)
+        res = ctx.prove()
+        ok2, _, again = translate(ctx)
+        if not gen_ok or not ok2 or not again["written"]:
+            break
+    else:
+        gen_ok, gen_msg = False, "coq/Gen/Io*.v were rewritten by another process during each of 3 builds (%s)" % ", ".join(again["written"])
     if not gen_ok:      # reported here: no later return may lose it
         ctx.violation("translator", {"kind": "translator", "message": gen_msg}, False, gen_msg)
-    res = ctx.prove()
     impl, model = io.drivers(ctx)
     env = io.impl_env()
     # streams that can hold corrupted / random 32-bit length fields run under an address-space limit
